@@ -2,5 +2,5 @@
 # DEVELOPMENT ONLY (never part of a registered check): re-record the ledgers of deterministic failing inputs on the CURRENT /repo tree.
 # Run after any change to the generators (tools/relgen.py, corpora) - only when /repo is the unchanged (or deliberately fixed) tree.
 cd "$(dirname "$0")/.."
-PROPS=${*:-C01 C03 C04 C05 C06 C07}
+PROPS=${*:-C01 C03 C04 C05 C06 C07 C09}
 for p in $PROPS; do rm -f known_cases/$p.json; for i in 1 2; do for t in quick thorough; do VERIF_RECORD_LEDGER=1 ./check $p --tier $t >/dev/null 2>&1; done; done; echo "$p: $(python3 -c "import json;print(len(json.load(open('known_cases/$p.json'))['cases']))") cases"; done
